@@ -1147,7 +1147,7 @@ class TorConfig:
                         EphemeralOnionService(
                             self,
                             ports=[],  # no way to discover ports=
-                            hostname=onion,
+                            hostname=onion + '.onion',  # Tor lists the bare service id
                             private_key=DISCARD,  # we don't know it, anyway
                             version=2,
                             detach=False,
@@ -1168,7 +1168,7 @@ class TorConfig:
                         EphemeralOnionService(
                             self,
                             ports=[],  # no way to discover original ports=
-                            hostname=onion,
+                            hostname=onion + '.onion',  # Tor lists the bare service id
                             detach=True,
                             private_key=DISCARD,
                         )
